@@ -34,6 +34,7 @@ class Recorder:
         self.calls = []       # (call_id, text)
         self.reported = {}    # id(node) -> (call_id, a, b, node)
         self.split = split
+        self.shared_empty = []      # legal API use: one empty list object passed as `children` to every child-less hit (the scan must not let nodes share it)
         self.decoders = [self._make(i) for i in range(split)]
 
     def _make(self, i):
@@ -47,6 +48,9 @@ class Recorder:
                 if j % self.split != i:
                     continue
                 n = make_node(h)
+                if not h[5] and len(self.calls) % 3 == 0:
+                    from multidecoder.node import Node
+                    n = Node(h[0], h[1], h[2], h[3], h[4], children=self.shared_empty)
                 self.reported[id(n)] = (cid, h[3], h[4], n)
                 out.append(n)
             return out
